@@ -277,7 +277,10 @@ func pathSearchFlags(f *Func, g *Graph, from Loc, condEval func(ast.Expr) (bool,
 			continue
 		}
 		if len(it.b.Succs) == 2 {
-			if info, ok := g.EdgeInfo(it.b, 0); ok && !info.Case {
+			if info, ok := g.EdgeInfo(it.b, 0); ok && (!info.Case || info.Synth != nil) {
+				if info.Case {
+					info.Cond = info.Synth
+				}
 				val, known := false, false
 				if condEval != nil {
 					val, known = condEval(info.Cond)
@@ -895,16 +898,22 @@ func ruleStaleDerived(c *Ctx, rule string) {
 				return true
 			}
 			n++
-			// locals defined before the loop from a moved page
+			// a local derived from a page that the loop moves: after the move no path may reach a use of it before it
+			// is computed again (the walk would work with the previous page's cell count or offsets)
 			bad := ""
+			g := f.Graph()
+			derived := map[types.Object]string{}
 			ast.Inspect(f.Decl.Body, func(y ast.Node) bool {
 				as, ok := y.(*ast.AssignStmt)
-				if !ok || as.Tok != token.DEFINE || as.Pos() >= loopPos || len(as.Rhs) != len(as.Lhs) {
+				if !ok || len(as.Rhs) != len(as.Lhs) {
 					return true
 				}
 				for i, l := range as.Lhs {
 					id, ok := l.(*ast.Ident)
-					if !ok {
+					if !ok || id.Name == "_" {
+						continue
+					}
+					if t := f.TypeOf(id); t != nil && namedTypeIs(t, "storage", "btreeNode") {
 						continue
 					}
 					dep := false
@@ -914,30 +923,100 @@ func ruleStaleDerived(c *Ctx, rule string) {
 						}
 						return true
 					})
-					if !dep || moved[f.ObjOf(id)] {
-						continue
+					if dep && !moved[f.ObjOf(id)] {
+						derived[f.ObjOf(id)] = id.Name + " (" + exprKey(as.Rhs[i]) + ")"
 					}
-					obj := f.ObjOf(id)
-					if t := f.TypeOf(id); t != nil && namedTypeIs(t, "storage", "btreeNode") {
-						continue
+				}
+				return true
+			})
+			defines := func(nn ast.Node, obj types.Object) bool {
+				_, isSpec := nn.(*ast.ValueSpec)
+				if ds, ok := nn.(*ast.DeclStmt); ok || isSpec {
+					def := false
+					var root ast.Node = nn
+					if ok {
+						root = ds
 					}
-					// used inside the loop without being reassigned there?
-					used, reassigned := false, false
-					ast.Inspect(body, func(z ast.Node) bool {
-						if zi, ok := z.(*ast.Ident); ok && f.ObjOf(zi) == obj {
-							used = true
-						}
-						if zas, ok := z.(*ast.AssignStmt); ok {
-							for _, zl := range zas.Lhs {
-								if zi, ok := zl.(*ast.Ident); ok && f.ObjOf(zi) == obj {
-									reassigned = true
+					ast.Inspect(root, func(z ast.Node) bool {
+						if vs, ok := z.(*ast.ValueSpec); ok {
+							for _, nm := range vs.Names {
+								if f.ObjOf(nm) == obj {
+									def = true
 								}
 							}
 						}
 						return true
 					})
-					if used && !reassigned {
-						bad = id.Name + " (" + exprKey(as.Rhs[i]) + ")"
+					return def
+				}
+				as, ok := nn.(*ast.AssignStmt)
+				if !ok {
+					return false
+				}
+				for _, l := range as.Lhs {
+					if id, ok := l.(*ast.Ident); ok && f.ObjOf(id) == obj {
+						return true
+					}
+				}
+				return false
+			}
+			usesObj := func(nn ast.Node, obj types.Object) bool {
+				hit := false
+				var lhs map[*ast.Ident]bool
+				if as, ok := nn.(*ast.AssignStmt); ok {
+					lhs = map[*ast.Ident]bool{}
+					for _, l := range as.Lhs {
+						if id, ok := l.(*ast.Ident); ok {
+							lhs[id] = true
+						}
+					}
+				}
+				if _, isDecl := nn.(*ast.DeclStmt); isDecl {
+					return false
+				}
+				if vs, isSpec := nn.(*ast.ValueSpec); isSpec {
+					for _, v := range vs.Values {
+						if usesIn(f, v, obj) {
+							return true
+						}
+					}
+					return false
+				}
+				ast.Inspect(nn, func(z ast.Node) bool {
+					if zi, ok := z.(*ast.Ident); ok && f.ObjOf(zi) == obj && !lhs[zi] {
+						hit = true
+					}
+					return !hit
+				})
+				return hit
+			}
+			ast.Inspect(body, func(y ast.Node) bool {
+				mv, ok := y.(*ast.AssignStmt)
+				if !ok || mv.Tok != token.ASSIGN {
+					return true
+				}
+				isMove := false
+				for _, l := range mv.Lhs {
+					if id, ok := l.(*ast.Ident); ok && moved[f.ObjOf(id)] {
+						isMove = true
+					}
+				}
+				ml, located := g.Locate(mv)
+				if !isMove || !located {
+					return true
+				}
+				for obj, descr := range derived {
+					stale, _ := g.Forward(&ml, nil, func(nn ast.Node, at Loc) Verdict {
+						if usesObj(nn, obj) {
+							return Hit
+						}
+						if defines(nn, obj) {
+							return Cut
+						}
+						return Go
+					}, nil)
+					if stale && (bad == "" || descr < bad) {
+						bad = descr
 					}
 				}
 				return true
@@ -1389,6 +1468,7 @@ func ruleLoopOnlyMutatorFails(c *Ctx, rule string) {
 
 // ruleNoSelfFormat: a String()/Error() method must not hand its own receiver to fmt (infinite recursion).
 func ruleNoSelfFormat(c *Ctx, rule string, pkgs ...string) {
+	c.Robust(rule) // about every String()/Error() method, a new one included
 	c.Rule(rule, "no String()/Error() method formats its own receiver with a fmt verb: fmt would call the method again without end and the process dies with a stack overflow that recover() cannot catch")
 	w := c.W
 	n := 0
@@ -1610,4 +1690,16 @@ func ruleErrorsNotDropped(c *Ctx, rule string, fnNames ...string) {
 			c.Undecided(rule, fn+"|calls", "no error-returning mkdb call found")
 		}
 	}
+}
+
+
+func usesIn(f *Func, n ast.Node, obj types.Object) bool {
+	hit := false
+	ast.Inspect(n, func(z ast.Node) bool {
+		if zi, ok := z.(*ast.Ident); ok && f.ObjOf(zi) == obj {
+			hit = true
+		}
+		return !hit
+	})
+	return hit
 }
